@@ -52,6 +52,12 @@ fn fault_table() -> Vec<(&'static str, Class)> {
         ("EVT\nEVT", Command),
         ("@", Command),
         ("EVT @", Command),
+        // an expression glued to a header (leaf and branch)
+        ("EVT(1)", Command),
+        ("SYST(1)", Command),
+        ("SYST:ERR(1:2)", Command),
+        ("STAT:OPER(@1)", Command),
+        ("*CLS(1)", Command),
         // header faults
         ("FOO", Command),
         ("SYST:FOO?", Command),
@@ -313,6 +319,36 @@ pub fn run(ctx: &'static Ctx) -> i32 {
     for (j, w) in bad_qt {
         ctx.violation(85000 + j, "conversion-fault-class", &w, json!({"kind": "quantity-type", "index": j}));
     }
+    // syntax faults inside list expressions are command errors too
+    {
+        use scpi::parser::expression::channel_list::ChannelList;
+        use scpi::parser::expression::numeric_list::NumericList;
+        let mut j = 0u64;
+        for body in [&b"1,,2"[..], b",1", b"1:2:3", b"1,a", b"1 2", b"1,2,,", b"a", b"1:a", b"1,2:3,x"] {
+            j += 1;
+            fault_cases += 1;
+            let code = guarded(|| NumericList::new(body).find_map(|r| r.err()).map(|e| e.get_code()));
+            match code {
+                Ok(Some(c)) if class_of(c) == Some(Class::Command) => {}
+                Ok(Some(c)) => {
+                    ctx.violation(88000 + j, "list-fault-class", &format!("numeric list `{}`: the syntax fault is reported as {c}, not a command error", esc(body)), json!({"kind": "list", "which": "numeric", "body": esc(body)}));
+                }
+                _ => {} // whether the fault is reported at all is C19's question
+            }
+        }
+        for body in [&b"@1,,2"[..], b"@,1", b"@1:2:3", b"@1,a", b"@1!2,,3", b"@1!2:3!4:5", b"@a", b"@1:a"] {
+            j += 1;
+            fault_cases += 1;
+            let code = guarded(|| ChannelList::new(body).and_then(|l| l.into_iter().find_map(|r| r.err())).map(|e| e.get_code()));
+            match code {
+                Ok(Some(c)) if class_of(c) == Some(Class::Command) => {}
+                Ok(Some(c)) => {
+                    ctx.violation(88000 + j, "list-fault-class", &format!("channel list `{}`: the syntax fault is reported as {c}, not a command error", esc(body)), json!({"kind": "list", "which": "channel", "body": esc(body)}));
+                }
+                _ => {}
+            }
+        }
+    }
     // the class of a parameter fault does not depend on the position of the parameter
     let (n_pos, bad_pos) = positional_faults();
     fault_cases += n_pos;
@@ -432,6 +468,20 @@ pub fn replay(case: &Value) -> Result<String, String> {
             match cr.result {
                 Err(code) if class_of(code) == Some(Class::Execution) => Ok(format!("{code}")),
                 other => Err(format!("buffer-fault-class: {:?}", other)),
+            }
+        }
+        Some("list") => {
+            use scpi::parser::expression::channel_list::ChannelList;
+            use scpi::parser::expression::numeric_list::NumericList;
+            let body = unesc(case["body"].as_str().unwrap_or(""));
+            let code = if case["which"] == "numeric" {
+                NumericList::new(&body).find_map(|r| r.err()).map(|e| e.get_code())
+            } else {
+                ChannelList::new(&body).and_then(|l| l.into_iter().find_map(|r| r.err())).map(|e| e.get_code())
+            };
+            match code {
+                Some(c) if class_of(c) != Some(Class::Command) => Err(format!("list-fault-class: {c}")),
+                other => Ok(format!("{:?}", other)),
             }
         }
         Some("positional") => {
